@@ -66,6 +66,7 @@ AUX_VARIANTS = {1: ('none',), 2: ('none', 'static', 'static-before'),
                 3: ('none', 'static', 'finer', 'other', 'finer-before', 'other-before')}
 # adapt histories of the adaptive decision itself (3 scenarios): the default {0,1},{2} is listed in scenario order; the
 # others are interleaved / listed out of scenario order: [[0,2],[1]], [[1],[0,2]], [[1,2],[0]], [[2],[1],[0]]
+TWO_MASKS = ([[1, 1], [1, 1]], [[1, 0], [0, 1]], [[0, 1], [1, 0]], [[1, 0], [1, 1]])
 YHIST_VARIANTS = ([[1]], [[0, 2]], [[0]], [[1], [0]])
 RO_USES = ('to_affine', 'add', 'radd', 'neg', 'mul', 'matmul', 'sub_add', 'le', 'ge', 'eq', 'st', 'T', 'sum', 'min',
            'reshape')
@@ -182,6 +183,19 @@ def _gen_all(tier, seed):
                 if P.rect_cells(bad) & used:
                     yield {'fam': 'maskill', 'fe': fe, 'rl': rl, 'rows': nrows, 'seq': [[r, c] for r, c in seq],
                            'bad': [bad[0], bad[1]]}
+    # ---- two affinely adaptive decision variables in one model (coefficient blocks of different variables / events must
+    #      not overlap) and an expectation objective mixing an adaptive decision with an explicit random term
+    for n in (2, 3):
+        hxs = [[[1]]] if n == 2 else [[[2]], [[1]], [[2], [1]]]
+        hys = [[], [[1]]] if n == 2 else [[], [[2]], [[1], [2]]]
+        for hx in hxs:
+            for hy in hys:
+                for order in ('xy', 'yx'):
+                    for mx in TWO_MASKS:
+                        for my in TWO_MASKS:
+                            for mix in (False, True):
+                                yield {'fam': 'twoadapt', 'n': n, 'hx': hx, 'hy': hy, 'order': order, 'mx': mx, 'my': my,
+                                       'mix': mix, 'pal': pal}
     # ---- pairs of partitions (S = 4 also in the quick tier: no solve needed for the partition calculus)
     for n in (2, 3, 4):
         parts = P.set_partitions(n)
@@ -784,6 +798,141 @@ def _run_maskill(case):
         return _viol(tag + '|re-declaration accepted', 'declared %s then rows %s x comps %s did not raise' % (seq, bad[0], bad[1]),
                      ops.n)
     return {'status': 'pass', 'outcome': 'maskill:raises %s' % raised, 'ops': ops.n, 'nontrivial': True, 'validated': 1}
+
+
+# ----------------------------------------------------------------------------------------------- two adaptive variables
+def _run_twoadapt(case):
+    """Two affinely adaptive decision variables x (event-wise) and y (plain or event-wise) tracking per-event targets
+    f_s*B z (mirror trick, one mirror per variable), event-wise residual bounds, objective E(sum of bounds) and, with
+    mix=True, additionally E(0.5*(x[0]-z[0]) + 0.25*(y[1]+z[1])) under known scenario means: the adaptive part of a decision
+    inside an expectation that also has an explicit random term must be counted."""
+    Bd = _rs['B']
+    lp = _rs['lp']
+    pd = _rs['pd']
+    E = _rs['E']
+    n, hx, hy, order, mix = case['n'], case['hx'], case['hy'], case['order'], case['mix']
+    mx, my = np.array(case['mx']), np.array(case['my'])
+    ops = Bd.Ops()
+    tag = 'twoadapt|%s' % ('mixed expectation' if mix else 'plain')
+    m = _rs['dro'].Model(n)
+    z = m.rvar(2)
+    w1 = m.rvar(2)
+    w2 = m.rvar(2)
+    pre = m.dvar()
+    if order == 'xy':
+        x = m.dvar(2)
+        y = m.dvar(2)
+    else:
+        y = m.dvar(2)
+        x = m.dvar(2)
+    tx = m.dvar(2)
+    ty = m.dvar(2)
+    last = m.dvar()
+    ops(10)
+    for v, h in ((x, hx), (tx, hx), (y, hy), (ty, hy)):
+        for blk in h:
+            v.adapt(blk[0] if len(blk) == 1 else list(blk))
+            ops()
+    for v, mk in ((x, mx), (y, my)):
+        for i in range(2):
+            cols = [j for j in range(2) if mk[i, j]]
+            if cols:
+                v[i].adapt(z if len(cols) == 2 else z[cols[0]])
+                ops()
+    px, py = P.declared_partition(hx, n), P.declared_partition(hy, n)
+
+    def factors(part):
+        blocks = sorted(part, key=min)
+        t = [2.0 + [bi for bi, b in enumerate(blocks) if s_ in b][0] for s_ in range(n)]
+        return t, [1.0 + v / 4.0 for v in t]
+    tauX, fX = factors(px)
+    tauY, fY = factors(py)
+    sgn = 1.0 if case['pal'] % 2 == 0 else -1.0
+    Bx = sgn * np.array([[1.0, 2.0], [4.0, 8.0]])
+    By = np.array([[3.0, 5.0], [7.0, 11.0]])
+    ax, ay = np.array([0.5, -1.5]), np.array([2.0, -0.5])
+    mu = np.array([[0.5, 0.25], [-0.25, 0.5], [0.75, -0.5]])[:n]
+    pr, _ = P.palette_pd(n, case['pal'])
+    fset = m.ambiguity()
+    try:
+        for s_ in range(n):
+            fset.iloc[s_].suppset(z >= -1, z <= 1, w1 == tauX[s_] * z, w2 == tauY[s_] * z)
+            if mix:
+                fset.iloc[s_].exptset(E(z) == mu[s_])
+        fset.probset(m.p == pr)
+        tX = ax + Bx @ z + (Bx / 4.0) @ w1
+        tY = ay + By @ z + (By / 4.0) @ w2
+        obj = tx.sum() + ty.sum() + pre + last
+        if mix:
+            obj = obj + 0.5 * (x[0] - z[0]) + 0.25 * (y[1] + z[1])
+        m.minsup(E(obj), fset)
+        m.st(tx >= x - tX, tx >= tX - x, ty >= y - tY, ty >= tY - y, pre >= 1.0, last >= 2.0)
+        ops(8 + 2 * n)
+        m.solve(display=False)
+        ops()
+    except Exception as ex:  # noqa
+        return _viol(tag + '|legal model failed to formulate', '%s %s' % (Bd.errname(ex), ex), ops.n)
+    if not Bd.is_optimal(m):
+        return {'status': 'vacuous', 'outcome': 'twoadapt:not optimal', 'ops': ops.n}
+    offX, offY = float(np.abs(Bx[mx == 0]).sum()), float(np.abs(By[my == 0]).sum())
+    want = 3.0
+    for s_ in range(n):
+        val = fX[s_] * offX + fY[s_] * offY
+        if mix:
+            val += 0.5 * (ax[0] + fX[s_] * float((Bx[0] * mx[0]) @ mu[s_]) - mu[s_, 0])
+            val += 0.25 * (ay[1] + fY[s_] * float((By[1] * my[1]) @ mu[s_]) + mu[s_, 1])
+        want += pr[s_] * val
+    got = float(m.get())
+    if not _close(got, want):
+        return _viol(tag + '|optimum differs from closed form',
+                     'x events %s mask %s, y events %s mask %s, declared %s: objective %r expected %r' %
+                     (x.event_adapt, mx.tolist(), y.event_adapt, my.tolist(), order, got, want), ops.n)
+    # ---- compiled program: one coefficient column per (variable, event, entry, component) cell, none shared
+    rules = m.rule_var()
+    nrand = m.sup_model.vars[-1].last
+    owner = {}
+    for vname, v, mk, part in (('x', x, mx, px), ('y', y, my, py)):
+        for s_ in range(n):
+            r = rules[s_]
+            if not isinstance(r, lp.RoAffine):
+                return _viol(tag + '|compiled rule is not affine in the random variables', type(r).__name__, ops.n)
+            ra = r.raffine.linear.tocsr()
+            ev = min(P.block_of(part, s_))
+            for i in range(2):
+                for j in range(nrand):
+                    row = ra.getrow((v.first + i) * nrand + j)
+                    declared = j < 2 and mk[i, j]
+                    if bool(row.nnz) != bool(declared) or row.nnz > 1:
+                        return _viol(tag + '|coefficient columns differ from the declared mask',
+                                     '%s[%d] component %d scenario %d: %d columns' % (vname, i, j, s_, row.nnz), ops.n)
+                    if declared:
+                        col = int(row.indices[0])
+                        cell = (vname, ev, i, j)
+                        if owner.setdefault(col, cell) != cell:
+                            return _viol(tag + '|coefficient column shared between different cells',
+                                         'column %d: %s and %s' % (col, owner[col], cell), ops.n)
+    cells = {}
+    for col, cell in owner.items():
+        if cells.setdefault(cell, col) != col:
+            return _viol(tag + '|one cell has several coefficient columns', '%s' % (cell,), ops.n)
+    # ---- reported rules
+    for vname, v, mk, f, Bv in (('x', x, mx, fX, Bx), ('y', y, my, fY, By)):
+        try:
+            cf = v.get(z)
+            ops()
+        except Exception as ex:  # noqa
+            return _viol(tag + '|coefficient query raised', '%s.get(z): %s %s' % (vname, Bd.errname(ex), ex), ops.n)
+        per = list(cf) if isinstance(cf, pd.Series) else [cf] * n
+        if len(per) != n:
+            return _viol(tag + '|coefficient query shape', '%s.get(z) has %d entries' % (vname, len(per)), ops.n)
+        for s_ in range(n):
+            c_ = np.asarray(per[s_], dtype=float)
+            if c_.shape != (2, 2) or not np.array_equal(np.isnan(c_), mk == 0):
+                return _viol(tag + '|NaN pattern differs from declared mask', '%s scenario %d: %s' % (vname, s_, c_.tolist()), ops.n)
+            if not np.allclose(c_[mk == 1], f[s_] * Bv[mk == 1], rtol=0, atol=1e-5 * 20):
+                return _viol(tag + '|coefficient value', '%s scenario %d: %s expected %s' %
+                             (vname, s_, c_.tolist(), (f[s_] * Bv).tolist()), ops.n)
+    return {'status': 'pass', 'outcome': 'twoadapt:ok', 'ops': ops.n, 'nontrivial': True, 'validated': 1}
 
 
 # ----------------------------------------------------------------------------------------------- pairs
